@@ -68,6 +68,27 @@ elif func == 'split_scope':
         except ValueError as e: return 'Err %d' % site(e, M._split_scope_npath, 'manipulations.py')
     def mk(s): return ['(%s, %s)' % (cs(s), run(s))]
     def key(s): return run(s)[:10]
+elif func == 'gap':
+    # the whitespace-gap helpers of expressions/trivia.py against the model's own helpers (F0.F0s): blank-line test in its three
+    # implementations (regex on the text, byte offsets, Layout.from_gap), indentation after the last newline, newline count
+    from nix_manipulator.expressions import trivia as T
+    HDR = 'From Coq Require Import List Ascii Bool Arith. Import ListNotations.\nFrom F0 Require Import F0s.\nDefinition c (n : nat) : ascii := ascii_of_nat n.\n'
+    alpha = ['\n', ' ', '\t', '\r', 'a']
+    ty = 'str * option (bool * bool * nat * nat)'
+    okd = ("Definition count_nl (g : str) : nat := List.length (filter (fun c => c =c LF) g).\n"
+           "Definition ok (t : str * option (bool * bool * nat * nat)) : bool := match snd t with None => false | Some (nl, blank, ind, cnt) =>\n"
+           "  Bool.eqb (has_nl (fst t)) nl && Bool.eqb (has_empty_line (fst t)) blank && Nat.eqb (indent_from_gap (fst t)) ind && Nat.eqb (count_nl (fst t)) cnt end.\n")
+    def run(s):
+        try:
+            bs = s.encode(); lay = T.layout_from_gap(s)
+            e1 = T.gap_has_empty_line(s); e2 = T._gap_has_empty_line_offsets(bs, 0, len(bs)) if bs else False; e3 = lay.blank_line
+            with T.source_bytes_context(bs): cnt, ind2 = T._gap_line_info_from_offsets(None, 0, len(bs))
+            ind = T.indent_from_gap(s)
+            if not (e1 == e2 == e3) or lay.on_newline != ('\n' in s) or (lay.indent or 0) != ind or (ind2 or 0) != ind or cnt != s.count('\n'): return 'None'
+            return 'Some (%s, %s, %d, %d)' % (b('\n' in s), b(e1), ind, cnt)
+        except Exception: return 'None'
+    def mk(s): return ['(%s, %s)' % (cs(s), run(s))] if s.isascii() else []
+    def key(s): return run(s)[:12]
 else:
     raise SystemExit('unknown function ' + func)
 
